@@ -17,11 +17,11 @@ func TestDebugLoop(t *testing.T) {
 		t.Fatal(err)
 	}
 	n := 0
-	for i := 0; i < 400; i++ {
+	for i := 0; i < 300; i++ {
 		o := runOnce(rf.Case)
 		if o.violation != "" || o.liveness != "" {
 			n++
-			if n <= 3 {
+			if o.violation != "" {
 				t.Logf("iter %d: %s | %s", i, o.violation, o.liveness)
 			}
 		}
